@@ -99,10 +99,57 @@ def rand_sig(rng, used):
             return s
 
 
-def mk_table(rng, sig, length, rev=None, body=None):
+PATTERNS = ('ff', '80', '7f', 'alt', 'lane', 'high', 'ramp', 'rand')
+
+
+def pattern_bytes(rng, kind, n):
+    """byte distributions that expose checksum shortcuts (word-at-a-time lanes, narrow or signed
+    accumulators, SIMD partial sums): saturated bytes, sign-bit bytes, alternating periods, one heavy
+    lane of a 2..64-byte period, bytes near 0xff, a ramp, uniform random"""
+    if kind == 'ff':
+        return bytearray([0xff]) * n
+    if kind == '80':
+        return bytearray([0x80]) * n
+    if kind == '7f':
+        return bytearray([0x7f]) * n
+    if kind == 'alt':
+        per = rng.choice([1, 2, 4, 8, 16])
+        a, b = rng.choice([(0xff, 0), (0xff, 0x01), (0x80, 0x7f), (0xfe, 0xff)])
+        return bytearray((a if (i // per) % 2 == 0 else b) for i in range(n))
+    if kind == 'lane':
+        per = rng.choice([2, 4, 8, 8, 16, 32, 64])
+        width = rng.choice([1, 1, 2, max(1, per // 4), max(1, per // 2)])
+        start = rng.randrange(per)
+        heavy = set((start + j) % per for j in range(width))
+        lo = rng.choice([0, 0, 1, 0x10])
+        return bytearray((0xff if (i % per) in heavy else (lo if lo < 2 else rng.randrange(lo))) for i in range(n))
+    if kind == 'high':
+        return bytearray(rng.randrange(0xf0, 0x100) for _ in range(n))
+    if kind == 'ramp':
+        k = rng.randrange(256)
+        return bytearray((i + k) & 0xff for i in range(n))
+    return bytearray(rng.randrange(256) for _ in range(n))
+
+
+def stress_length(rng):
+    """table lengths on every scale up to several KiB, clustered around powers of two and multiples
+    of the word / vector sizes a shortcut would use"""
+    r = rng.random()
+    if r < 0.45:
+        base = rng.choice([64, 128, 256, 512, 1024, 1536, 2048, 3072, 4096, 8192])
+        return max(36, base + rng.choice([-33, -17, -9, -8, -7, -1, 0, 0, 1, 7, 8, 9, 15, 16, 17, 31, 33]))
+    if r < 0.75:
+        return int(2 ** rng.uniform(5.2, 13.2))
+    return rng.randrange(36, 2600)
+
+
+SMALL_DELTAS = (1, 2, 3, 4, 7, 8, 255, 254, 253, 252, 249, 248, 0x80, 0x10, 0xf0)
+
+
+def mk_table(rng, sig, length, rev=None, body=None, content=None):
     """a checksum-valid table image of `length` bytes (at least the 36-byte header is produced)"""
     n = max(length, 36)
-    b = bytearray(rng.randrange(256) for _ in range(n))
+    b = bytearray(rng.randrange(256) for _ in range(n)) if content is None else bytearray(content[:n]) + bytearray(n - len(content[:n]))
     if body is not None:
         b[36:36 + len(body)] = body
         del b[n:]
@@ -205,6 +252,7 @@ def gen_one(rng, off, fadt_dump, force=None):
     dsdt_want = 0
     fadt_i = rng.randrange(ntab) if kind else -1
     dup = rng.random() < 0.06 and ntab >= 2 and fadt_i != 0
+    nbig = 0
     for i in range(ntab):
         if i == fadt_i:
             # the DSDT(s) first
@@ -246,11 +294,22 @@ def gen_one(rng, off, fadt_dump, force=None):
             if kind == 2 and rng.random() < 0.3:
                 img.add_pages(0x4000, 1, 0)                    # something is mapped where the bogus pointer leads
         else:
-            ln = rng.choice([36, 36, 37, 44, 84, 100, 244, 460, 1000, 0, 1, 9, 10, 35]) if rng.random() < 0.9 else rng.randrange(0, 600)
+            r = rng.random()
+            content = None
+            if r < 0.07 and nbig < 2:
+                ln = stress_length(rng)                      # large / awkward length, extreme byte distribution
+                content = pattern_bytes(rng, rng.choice(PATTERNS), max(ln, 36))
+                nbig += 1
+            elif r < 0.8:
+                ln = rng.choice([36, 36, 37, 44, 84, 100, 244, 460, 1000, 0, 1, 9, 10, 35])
+            else:
+                ln = rng.randrange(0, 600)
+            if content is None and rng.random() < 0.15:
+                content = pattern_bytes(rng, rng.choice(PATTERNS), max(ln, 36))
             sig = rand_sig(rng, used)
             if dup and i == ntab - 1:
                 sig = bytes(tables[0][1][0:4])
-            t = mk_table(rng, sig, ln)
+            t = mk_table(rng, sig, ln, content=content)
             tables.append([place(ln, not xs), t, 'plain'])
     listed = [i for i, t in enumerate(tables) if t[2] in ('fadt', 'plain')]
     if kind and rng.random() < 0.15:
@@ -270,7 +329,7 @@ def gen_one(rng, off, fadt_dump, force=None):
                     p = rng.randrange(min(ln, len(c)))
                     c[p] ^= rng.randrange(1, 256)
                 elif how < 0.8:
-                    c[9] = (c[9] + rng.randrange(1, 256)) & 0xff
+                    c[9] = (c[9] + (rng.choice(SMALL_DELTAS) if rng.random() < 0.6 else rng.randrange(1, 256))) & 0xff
                 else:
                     c[4:8] = le(ln + rng.choice([1, 2, 4, 16]), 4)
                 if t[2] != 'fadt' or all(ptr_ok(int.from_bytes(c[o:o + 8], 'little')) and ptr_ok(int.from_bytes(c[o:o + 4], 'little'))
@@ -422,6 +481,64 @@ def unparse(head, ranges, segs, tail):
     return out + list(tail)
 
 
+def gen_stress(rng, specs, rev, root_rev=1):
+    """a minimal image (root pointer in the first slot of a small window, root table listing only the
+    given tables) whose tables are (pattern, length, delta): bytes of the given distribution summing
+    to delta modulo 256 (0 = valid)"""
+    img = Img()
+    low = WIN_ZONE
+    hi = low + 16 * 4 - 1
+    img.add_pages(low, hi + 1 - low, 0)
+    xs = rev != 0
+    w = 8 if xs else 4
+    al = Alloc(rng, Z32)
+    used = set()
+    addrs = []
+    for kind, ln, delta in specs:
+        t = mk_table(rng, rand_sig(rng, used), ln, content=pattern_bytes(rng, kind, max(ln, 36)))
+        t[9] = (t[9] + delta) & 0xff
+        a = al.place(ln, img, 0)
+        img.write(a, t)
+        addrs.append(a)
+    order = list(range(len(addrs)))
+    rng.shuffle(order)
+    root = mk_table(rng, b'XSDT' if xs else b'RSDT', 36 + w * len(addrs), rev=root_rev, body=b''.join(le(addrs[i], w) for i in order))
+    ra = al.place(len(root), img, 0)
+    img.write(ra, root)
+    b = bytearray(36)
+    b[0:8] = RSDP_SIG
+    b[15] = rev
+    b[16:20] = le(ra if not xs else 0, 4)
+    b[20:24] = le(36, 4)
+    b[24:32] = le(ra if xs else 0, 8)
+    fix_sum(b, 8, 20)
+    if xs:
+        fix_sum(b, 32, 36)
+    else:
+        b = b[:20]
+    img.write(low, b)
+    return [low, hi, 16, 0, 0] + img.nums() + [0, 0], 'stress rev%s' % (rev if rev in (0, 2) else 'N')
+
+
+def stress_battery(rng, budget):
+    """every byte distribution at lengths on every scale, each as a valid table and with the sum off
+    by -1, -2, -3, +1 (a shortcut that is off by a few must not turn these into valid tables)"""
+    out = []
+    small = [36 + rng.randrange(1, 30), 255 + rng.randrange(0, 4), 510 + rng.randrange(0, 20), 1025 + rng.randrange(0, 400),
+             1536 + rng.randrange(0, 400), 2048 - rng.randrange(0, 24), 2048]
+    large = [2049 + rng.randrange(0, 40), 4096 + rng.choice([-1, 0, 1, 8]), 6000 + rng.randrange(0, 2300)]
+    for kind in PATTERNS:
+        for ln in small:
+            specs = [(kind, ln, d) for d in (0, 255, 254, 253)] + ([(kind, ln, rng.choice([1, 2, 3]))] if ln < 600 else [])
+            out.append(gen_stress(rng, specs, rng.choice([0, 2])))
+        for ln in large:
+            specs = [(kind, ln, d) for d in (0, rng.choice([255, 254, 253, 1, 2]))]
+            out.append(gen_stress(rng, specs, rng.choice([0, 2])))
+        if len(out) >= budget:
+            break
+    return out
+
+
 class C14(flow.Spec):
     prop = 'C14'
     props_files = ['theories/Props/C14.v', 'theories/Props/C14_examples.v']
@@ -432,7 +549,7 @@ class C14(flow.Spec):
     rule = ('firmware images generated in Python and handed to both sides as (address, byte) data, mapped at their real low addresses in the test process: '
             'root pointer at the first / last fitting / a random aligned slot of the kernel\'s own window (0xe0000-0xfffff) or of windows of 1-300 slots, '
             'revision 0 / 2 / other, decoys (bad checksum, signature one byte off, second valid pointer), 0-8 tables in random order with distinct signatures '
-            '(some with duplicates), 4/8-byte entries, tables flush against absent pages, one-byte / checksum / length corruption of any table or of the root table, '
+            '(some with duplicates), 4/8-byte entries, table lengths from 0 to ~9 KiB clustered around powers of two with extreme byte distributions (all 0xff / 0x80 / 0x7f, alternating periods, one heavy lane of a 2-64 byte period, near-0xff, ramp, random) valid and with the sum off by +-1..8, tables flush against absent pages, one-byte / checksum / length corruption of any table or of the root table, '
             'FADT with both / only the 32-bit / only the 64-bit / disagreeing DSDT pointers and the VirtualBox FADT shipped with the repo, seam failures; '
             'non-trivial = probe finds a root pointer and DriverInit succeeds with at least one table registered')
     assumptions = [
@@ -448,7 +565,7 @@ class C14(flow.Spec):
     partial = []
 
     def gen_cases(self, rng, tier):
-        n = {'quick': 2000, 'thorough': 40000, 'search': 3000}[tier]
+        n = {'quick': 1900, 'thorough': 40000, 'search': 3000}[tier]
         off = kernel_offsets()
         dump = repo_fadt()
         out = []
@@ -465,13 +582,20 @@ class C14(flow.Spec):
         for kind in (1, 2, 3, 4, 5):
             for root_rev in (0, 1, 2):
                 out.append(gen_one(rng, off, dump, dict(kind=kind, root_rev=root_rev, nodefault=True)))
+        # large tables with extreme byte distributions (word-at-a-time / narrow-accumulator checksums)
+        for _ in range(5 if tier == 'thorough' else 1):
+            out += stress_battery(rng, 80)
         while len(out) < n:
-            out.append(gen_one(rng, off, dump))
+            if rng.random() < 0.02:
+                specs = [(rng.choice(PATTERNS), stress_length(rng), rng.choice((0, 0) + SMALL_DELTAS)) for _ in range(rng.randrange(1, 5))]
+                out.append(gen_stress(rng, specs, rng.choice([0, 2, 3]), rng.choice([0, 1, 2])))
+            else:
+                out.append(gen_one(rng, off, dump))
         return out
 
     def classify(self, nums, note):
         t = note.split()
-        keep = [x for x in t if x.startswith(('rev', 'fadt-', 'no-rsdp', 'kernel-window'))]
+        keep = [x for x in t if x.startswith(('rev', 'fadt-', 'no-rsdp', 'kernel-window', 'stress'))]
         return ' '.join(keep) or 'case'
 
     def explain(self, nums):
